@@ -139,7 +139,7 @@ class Sp:
 class WorkerYield(Exception): pass
 class WorkerExit(Exception): pass
 
-def install(it, nthreads, fl_mode):
+def install(it, nthreads, fl_mode, sched="forward"):
     reg = {}; freg = {}; keep = []; st = dict(workers=[], in_worker=False, solves=0, rowadd=0, rowdel=0, recompute=0, factorize=0, descents=0)
     def materialise(o, S):
         """compressed-column arrays of the stored entries (packed, sorted): what get_column reads through A->p, A->i, A->x"""
@@ -397,9 +397,15 @@ def install(it, nthreads, fl_mode):
         return None
     # ---- threads: workers run to completion whenever the coordinator waits
     def run_workers():
-        for w in st["workers"]:
+        # schedule: which of the workers that were told to RUN get the processor before the coordinator looks again
+        order = list(st["workers"])
+        if sched in ("reverse", "one-at-a-time-reverse"): order.reverse()
+        ran = 0
+        for w in order:
             d = w.obj.cells[w.off]
+            if sched.startswith("one-at-a-time") and ran: break          # the coordinator wakes up after a single report and has to wait again
             if d.get("state") == 1 and not d.get("vp_dead"):
+                ran += 1
                 st["in_worker"] = True
                 try: it.call("evaluate_descent", [w])
                 except WorkerYield: pass
@@ -514,6 +520,26 @@ def solve_with(solver, A, b, nthreads=1, fl_mode="default"):
     if solver == "cholesky_solve": r = it.call(solver, [S, G.Ptr(o, 0), G.Ptr(cc, 0), 0, nthreads - 1])       # (AtA, Atb, c, verbose, n_resolves)
     else: r = it.call(solver, [S, G.Ptr(o, 0), 0, G.Ptr(cc, 0)])
     return [v.num for v in r.obj.cells[0]["x"].obj.cells[:n]]
+
+SCHEDULES = ("forward", "reverse", "one-at-a-time", "one-at-a-time-reverse")
+def schedule_case(args):
+    """nnls_normal_block3 under several worker schedules: the returned vector must be the same (C12's 'same result under every schedule', on the exact execution)"""
+    label, A, b, nthreads, fl_mode = args; t0 = time.time(); n = len(A); res = {}
+    tag = "%s [nnls_normal_block3, %d workers, work estimate: %s]" % (label, nthreads, fl_mode)
+    try:
+        prog, params = PROG
+        for sc in SCHEDULES:
+            it = G.Interp(prog, X14.RatDom(), max_steps=8000000); it.prog_params = params
+            mk, st = install(it, nthreads, fl_mode, sched=sc)
+            S = mk(Sp(n, n, {(i, j): A[i][j] for i in range(n) for j in range(n) if A[i][j] != 0}), 0)
+            o = it.new_obj("dense", 1); o.cells[0] = dict(nrow=n, ncol=1, x=G.Ptr(it.array("Atb", [F(v) for v in b]), 0))
+            cc = it.array("common", [dict(status=0, fl=F(0), lnz=F(0), modfl=F(0), nmethods=9, postorder=1, method=G.Ptr(it.array("methods", [dict(ordering=q) for q in range(10)]), 0))])
+            r = it.call("nnls_normal_block3", [S, G.Ptr(o, 0), 0, G.Ptr(cc, 0)])
+            res[sc] = ([v.num for v in r.obj.cells[0]["x"].obj.cells[:n]], st["descents"])
+        same = all(res[sc][0] == res["forward"][0] for sc in SCHEDULES)
+        return [("%s: O5 the same vector under every worker schedule (%s)" % (tag, ", ".join(SCHEDULES)), same, "; ".join("%s: %s" % (sc, [str(v) for v in res[sc][0]]) for sc in SCHEDULES)[:600], time.time() - t0, max(v[1] for v in res.values()))]
+    except G.ExecError as ex:
+        return [("%s: O5 the same vector under every worker schedule" % tag, False, "%s: %s%s (schedules finished: %s)" % (type(ex).__name__, ex, getattr(ex, "loc", ""), list(res)), time.time() - t0, 0)]
 
 def run_case(args):
     label, A, b, solver, nthreads, fl_mode = args; t0 = time.time(); n = len(A); out = []
@@ -661,8 +687,16 @@ def main():
         cases.append((label, A, b, "nnls_lawson_hanson", 1, "default"))
         if label in MY and (thorough or q % 2): cases.append((label, A, b, "nnls_lawson_hanson/ls", 1, "default"))
     t0 = time.time()
+    scases = [(label, A, b, 2 + q % 3, ("default", "updates", "recompute")[q % 3]) for q, (label, A, b) in enumerate(sysl) if thorough or q % 3 == 0 or label.startswith("found-")]
     with mp.Pool(min(vlib.NCORES, 16)) as pool:
         res = pool.map(run_case, cases, chunksize=1)
+        sres = pool.map(schedule_case, scases, chunksize=1)
+    sflat = [o for r in sres for o in r]
+    rep.add_group("E3-rational (exact execution under four worker schedules: all workers / one worker per wake-up of the coordinator, forward / reverse order)", len(sflat), sum(1 for o in sflat if o[1]), time.time() - t0,
+                  bounded="%d systems, 2-4 workers" % len(scases), name="C11-schedules")
+    for o in sflat:
+        if not o[1]: rep.add_violation("C11-schedules", re.sub(r"[^\w\-\+\.\[\],:#]", "_", o[0])[:200], o[0] + ": " + o[2], trace=o[2])
+    if not any(o[4] > 0 for o in sflat): rep.undecided.append("vacuity: no schedule run reached the line search")
     flat = [o for r in res for o in r if not o[0].split(": ", 1)[1].startswith("O0")]
     bylabel = {(c[0], c[3]): c for c in cases}; native = {}
     def replay(tagged):
